@@ -37,6 +37,7 @@ import math
 from mc import core
 from mc.engines import progenum
 from mc.oracles import osc10
+from mc.oracles import osc_client as oc
 
 MODE = 'nrt'
 MODNAME = 'mc.checks.c06'
@@ -44,7 +45,6 @@ MODNAME = 'mc.checks.c06'
 UDP_LIMIT = 65507        # IPv4: 65535 - 20 (IP header) - 8 (UDP header)
 LIB_LIMIT = 65504        # the limit named by the property statement
 SYNC_RESERVE = 36        # bundle(latency, ['/sync', id]) as documented
-TWO32 = 2 ** 32
 PARSER_BUDGET = 200000   # traced events allowed for one OscPacket() call
 
 
@@ -88,195 +88,13 @@ def pyrepr(v):
 
 
 # ---------------------------------------------------------------------------
-# The oracle: what the property statement says a value must become.
+# The oracle (mc/oracles/osc_client.py): what the property statement says a
+# value must become on the wire, and the comparison with what was decoded.
 
-class Pkt:
-    """Expected blob argument holding an encoded packet."""
-
-    def __init__(self, struct_):
-        self.struct = struct_
-
-    def __repr__(self):
-        return f'Pkt({self.struct!r})'
-
-
-class Alt:
-    """Set of acceptable values (don't-care between them)."""
-
-    def __init__(self, *vals):
-        self.vals = vals
-
-    def __repr__(self):
-        return 'Alt' + repr(self.vals)
-
-
-ACCEPT, EITHER, REFUSE = 'accept', 'either', 'refuse'
-
-
-class AnyValue:
-    """Expected value the statement leaves open entirely."""
-
-    def __repr__(self):
-        return 'ANY'
-
-
-ANY = AnyValue()
-
-
-class Verdict:
-    """Accumulates acceptance status; REFUSE dominates EITHER dominates
-    ACCEPT.  `reasons` names why a refusal is demanded/allowed."""
-
-    def __init__(self):
-        self.status = ACCEPT
-        self.reasons = []
-
-    def must_refuse(self, why):
-        self.status = REFUSE
-        self.reasons.append('refuse:' + why)
-
-    def may_refuse(self, why):
-        if self.status == ACCEPT:
-            self.status = EITHER
-        self.reasons.append('either:' + why)
-
-
-def exp_timetag(lat):
-    """NRT, outside routines: absolute from zero.  None/negative means
-    "immediately": tag 1 (OSC) or 0 (time zero of the score) - don't-care."""
-    if lat is None or lat < 0:
-        return Alt(0, 1)
-    return int(lat * TWO32)        # exact: latencies are dyadic
-
-
-def exp_message(msg, vd):
-    """Expected decoded structure of message-shaped list `msg`."""
-    addr = msg[0]
-    toks = []                      # (tag, expected value) / ('[',) / (']',)
-    for a in msg[1:]:
-        if a is None or a is False:
-            toks.append(('i', 0))
-        elif a is True:
-            toks.append(('i', 1))
-        elif isinstance(a, int):
-            if not osc10.INT32_MIN <= a <= osc10.INT32_MAX:
-                vd.must_refuse('int32-range')
-            toks.append(('i', a))
-        elif isinstance(a, float):
-            if math.isinf(a) or math.isnan(a):
-                toks.append(('f', a))
-            elif abs(a) > osc10.FLOAT32_MAX:
-                # "floats to 32 bits": IEEE rounding gives +-inf, refusing is
-                # the other reading of "cannot be represented".
-                vd.may_refuse('float32-range')
-                toks.append(('f', math.copysign(math.inf, a)))
-            else:
-                toks.append(('f', osc10.float32(a)))
-        elif isinstance(a, str):
-            if a == '[':
-                toks.append(('[',))
-            elif a == ']':
-                toks.append((']',))
-            else:
-                if '\x00' in a:
-                    vd.must_refuse('nul-in-string')
-                toks.append(('s', a))
-        elif isinstance(a, (bytes, bytearray, memoryview)):
-            if len(a) == 0:
-                vd.may_refuse('empty-blob')
-            toks.append(('b', bytes(a)))
-        elif isinstance(a, tuple):
-            toks.append(('m', a))
-        elif isinstance(a, list):
-            if not a:
-                toks.append(('i', 0))
-            elif isinstance(a[0], str):
-                toks.append(('b', Pkt(exp_message(a, vd))))
-            else:
-                toks.append(('b', Pkt(exp_bundle(a, vd))))
-        else:
-            raise core.HarnessError(f'value outside the alphabet: {a!r}')
-    args = []
-    stack = [args]
-    tags = []
-    balanced = True
-    for t in toks:
-        tags.append(t[0])
-        if t[0] == '[':
-            new = []
-            stack[-1].append(new)
-            stack.append(new)
-        elif t[0] == ']':
-            if len(stack) < 2:
-                balanced = False
-                break
-            stack.pop()
-        else:
-            stack[-1].append(t[1])
-    if not balanced or len(stack) != 1:
-        vd.must_refuse('unbalanced-brackets')
-    return {'type': 'message', 'address': addr, 'tags': ''.join(tags),
-            'args': args}
-
-
-def exp_bundle(bndl, vd):
-    """Expected decoded structure of bundle-shaped list `bndl`."""
-    lat = bndl[0]
-    elements = []
-    for e in bndl[1:]:
-        if isinstance(e[0], str):
-            elements.append(exp_message(e, vd))
-        else:
-            sub = e[0]
-            if lat is not None and (sub is None or sub < lat):
-                vd.may_refuse('nested-precedes-parent')   # C07 decides
-            elements.append(exp_bundle(e, vd))
-    return {'type': 'bundle', 'timetag': exp_timetag(lat),
-            'elements': elements}
-
-
-def match(exp, obs, path='$'):
-    """None if the observed decoded structure is what was expected, else a
-    short description of the first difference."""
-    if exp is ANY:
-        return None
-    if isinstance(exp, Alt):
-        for v in exp.vals:
-            if match(v, obs, path) is None:
-                return None
-        return f'{path}: {obs!r} not one of {exp.vals!r}'
-    if isinstance(exp, Pkt):
-        if not isinstance(obs, bytes):
-            return f'{path}: expected a blob, got {type(obs).__name__}'
-        try:
-            sub = osc10.decode(obs)
-        except osc10.OscError as e:
-            return f'{path}: nested blob is not a conforming packet: {e}'
-        return match(exp.struct, sub, path + '.blob')
-    if isinstance(exp, dict):
-        if not isinstance(obs, dict) or exp['type'] != obs.get('type'):
-            return f'{path}: expected a {exp["type"]}, got {_short(obs)}'
-        for k in exp:
-            r = match(exp[k], obs[k], f'{path}.{k}')
-            if r:
-                return r
-        return None
-    if isinstance(exp, list):
-        if not isinstance(obs, list) or len(exp) != len(obs):
-            return f'{path}: expected {len(exp)} items, got {_short(obs)}'
-        for i, (a, b) in enumerate(zip(exp, obs)):
-            r = match(a, b, f'{path}[{i}]')
-            if r:
-                return r
-        return None
-    if osc10.same_value(exp, obs):
-        return None
-    return f'{path}: expected {_short(exp)}, got {_short(obs)}'
-
-
-def _short(x, n=120):
-    s = repr(x)
-    return s if len(s) <= n else s[:n] + f'...({len(s)} chars)'
+Pkt, Alt, ANY, Verdict = oc.Pkt, oc.Alt, oc.ANY, oc.Verdict
+ACCEPT, EITHER, REFUSE = oc.ACCEPT, oc.EITHER, oc.REFUSE
+exp_message, exp_bundle, match = oc.exp_message, oc.exp_bundle, oc.match
+_short, _concrete = oc.short, oc.concrete
 
 
 def plain_messages(struct_, tt=None):
@@ -346,17 +164,29 @@ def exc_name(e):
     return type(e).__name__
 
 
+_osclib = None
+
+
+def osclib():
+    """sc3.base._osclib (pure module: usable without sc3.init)."""
+    global _osclib
+    if _osclib is None:
+        from sc3.base import _osclib as m
+        _osclib = m
+    return _osclib
+
+
 def own_parse(dgram, traced):
     """The library's own reader on a datagram: [(time, address, params)].
     Bundles are parsed under a step budget (the element loop of the parser is
     the only unbounded loop)."""
-    L = lib()
+    cls = osclib().OscPacket
     if not traced:
-        pk = L['osclib'].OscPacket(dgram)
+        pk = cls(dgram)
         return [(tm.time, tm.message.address, tm.message.params)
                 for tm in pk.messages]
     with progenum.budget(PARSER_BUDGET):
-        pk = L['osclib'].OscPacket(dgram)
+        pk = cls(dgram)
         return [(tm.time, tm.message.address, tm.message.params)
                 for tm in pk.messages]
 
@@ -415,6 +245,207 @@ def check_size(prefix, predicted, real, py):
 
 
 # ---------------------------------------------------------------------------
+# part lib (mode 'import'): the type writers/readers and the message builder
+# of sc3/base/_osclib.py on their own, before sc3 is initialised.  Also the
+# canary: a tree whose encoder is broken so badly that sc3.init('nrt') fails
+# (the library encodes its own start-up messages) is reported from here.
+
+PURE = [v for v in (
+    0, 1, -1, 2 ** 31 - 1, -2 ** 31, 2 ** 31,
+    0.0, 0.5, -1.5, 1e-3, 1e39, {'f': 'inf'}, {'f': 'nan'},
+    '', 'a', 'abc', 'abcd', 'abcde', 'ñ', 'ññññ', 'a\x00b',
+    {'b': ''}, {'b': '31'}, {'b': '3132'}, {'b': '313233'},
+    {'b': '31323334'}, {'b': '3132333435'},
+    {'m': [0, 144, 60, 64]})]
+RUNAWAY = 16384      # no msg/bndl/lib case encodes to more than ~1 kB
+
+
+def lib_cases():
+    for a in ADDRS_Q:
+        yield {'lib': [a]}
+        for v in PURE:
+            yield {'lib': [a, v]}
+        for v in PURE:
+            for w in PURE:
+                yield {'lib': [a, v, w]}
+
+
+def lib_standalone(py):
+    return ("from sc3.base._osclib import OscMessageBuilder, OscPacket\n"
+            "w = OscMessageBuilder('/w'); w.add_arg(7); w.build()\n"
+            f"b = OscMessageBuilder({py[0]!r})\n"
+            f"for v in {pyrepr(py[1:])}:\n"
+            "    b.add_arg(v)\n"
+            "d = b.build().dgram\n"
+            "print(d, OscPacket(d).messages[0].message.params)\n")
+
+
+def check_lib_once(case):
+    py = jv(case['lib'])
+    vd = Verdict()
+    expected = exp_message(py, vd)
+    try:
+        # Fixed predecessor: state leaking from one message into the next
+        # must show within a single (replayable) case.
+        w = osclib().OscMessageBuilder('/w')
+        w.add_arg(7)
+        w.add_arg('w')
+        w.build()
+    except Exception:
+        pass
+    try:
+        b = osclib().OscMessageBuilder(py[0])
+        for v in py[1:]:
+            b.add_arg(v)
+        dgram = b.build().dgram
+        _last['dgram'] = dgram
+        err = None
+    except Exception as e:
+        dgram, err = None, e
+    dis = []
+    if err is not None:
+        outcome = ['refused', exc_name(err)]
+        if vd.status == ACCEPT:
+            dis.append(('lib-representable-refused', 'accepted',
+                        f'{exc_name(err)}: {err}'[:300], ''))
+    elif vd.status == REFUSE:
+        why = sorted(set(r[7:] for r in vd.reasons
+                         if r.startswith('refuse:')))
+        dis.append(('lib-unrepresentable-accepted-' + '+'.join(why),
+                    'an exception (value has no OSC representation)',
+                    dgram.hex()[:400] if isinstance(dgram, bytes)
+                    else repr(dgram), 'accepted and sent as altered bytes'))
+        outcome = ['accepted-unrepresentable', len(dgram)]
+    else:
+        d, dec = check_encoded('lib', dgram, expected, py)
+        dis += d
+        outcome = ['accepted', len(dgram), dec['tags'] if dec else None]
+    nontriv = any(is_nontrivial_value(v) for v in py[1:])
+    return dis, outcome, nontriv
+
+
+_last = {'dgram': None}
+
+
+def stable(part, once, case):
+    """Run one case; when it disagrees, run it a second time: if the library
+    answers differently for the same input (state accumulated from earlier
+    messages), the only disagreement reported is '<part>-encoding-depends-on-
+    history' - the other kinds would not be reproducible from the case alone
+    (a fresh replay performs the same two runs)."""
+    _last['dgram'] = None
+    dis, outcome, nontriv = once(case)
+    if dis:
+        d1 = _last['dgram']
+        _last['dgram'] = None
+        dis2, outcome2, _ = once(case)
+        d2 = _last['dgram']
+        if d1 != d2 or core.canon(outcome) != core.canon(outcome2):
+            dis = [(f'{part}-encoding-depends-on-history',
+                    'the same input encodes to the same bytes',
+                    [_short(d1, 200), _short(d2, 200)],
+                    'two consecutive encodings of the same input (each after '
+                    'the fixed predecessor message) differ')]
+    return dis, outcome, nontriv
+
+
+CANARY = ['/w', 7, 0.5, 'w', {'b': '76'}, {'m': [0, 144, 60, 64]}]
+CANARY_NRT = CANARY + [True, None, [], ['/v', {'b': '76'}],
+                       [0.0, ['/v', 'w']], '[', 1, ']']
+CANARY_BAD = ['/w', 'w', 2 ** 31]
+
+
+def canary(level):
+    """Does the encoder keep state between messages?  Encode a fixed message,
+    then a refused one, then the fixed one again (twice): all three encodings
+    of the fixed message must be identical.  A leak makes every later case
+    depend on the whole history of the worker, so the shard is not explored
+    and this single, replayable disagreement is reported instead."""
+    def enc(msg):
+        py = jv(msg)
+        if level == 'lib':
+            b = osclib().OscMessageBuilder(py[0])
+            for v in py[1:]:
+                b.add_arg(v)
+            return b.build().dgram
+        return lib()['main']._osc_interface._build_msg(0.0, py).dgram
+
+    def attempt(msg):
+        try:
+            return enc(msg).hex()
+        except Exception as e:
+            return 'raises ' + exc_name(e)
+
+    good = CANARY if level == 'lib' else CANARY_NRT
+    obs = [attempt(good), attempt(CANARY_BAD), attempt(good), attempt(good)]
+    if obs[0] == obs[2] == obs[3]:
+        if not obs[0].startswith('raises'):
+            return []
+        # (in a worker whose encoder is already stuck this is an artefact;
+        # the parent then keeps only the leak reported by an earlier shard)
+        return [(f'{level}-canary-refused', 'accepted', obs[0],
+                 f'representable message {good!r} is refused')]
+    return [(f'{level}-encoder-state-leak',
+             'identical bytes for identical messages', obs,
+             'the same message encodes differently depending on the messages '
+             'built before it')]
+
+
+def check_canary(case):
+    dis = canary(case['canary'])
+    return dis, ['canary', [d[0] for d in dis]], True
+
+
+def run_canary(acc, level, record):
+    """-> True when the shard must be skipped.  Every shard runs the canary;
+    one designated shard per part records it as an executed case."""
+    dis = canary(level)
+    for kind, exp, obs, detail in dis:
+        acc.violation(kind, {'canary': level}, exp, obs, detail)
+    if record:
+        acc.case({'canary': level}, nontrivial=True,
+                 outcome=['canary', [d[0] for d in dis]])
+    leak = any(d[0].endswith('state-leak') for d in dis)
+    if leak:
+        acc.count('shards_cut_state_leak')
+    return leak
+
+
+def check_lib(case):
+    return stable('lib', check_lib_once, case)
+
+
+def check_msg(case):
+    return stable('msg', check_msg_once, case)
+
+
+def check_bndl(case):
+    return stable('bndl', check_bndl_once, case)
+
+
+def work_lib(job):
+    acc = progenum.Acc()
+    broken = 0
+    if run_canary(acc, 'lib', job['shard'] == 0):
+        return acc.result()
+    for idx, case in enumerate(lib_cases()):
+        if idx % job['of'] != job['shard']:
+            continue
+        dis, outcome, nontriv = check_lib(case)
+        for kind, exp, obs, detail in dis:
+            acc.violation(kind, case, exp, obs, detail,
+                          standalone=lib_standalone(jv(case['lib'])))
+        acc.case(case, nontrivial=nontriv, outcome=outcome)
+        if dis:
+            broken += 1
+        if outcome[0].startswith('accepted') and outcome[1] > RUNAWAY:
+            acc.count('shards_cut_runaway_encoding')
+            break
+    acc.count('lib_cases_with_disagreement', broken)
+    return acc.result()
+
+
+# ---------------------------------------------------------------------------
 # part msg
 
 ADDRS_Q = ['/a', '/abc', '/abcd', '/a/b']
@@ -436,12 +467,36 @@ VALUES = [
 ]
 
 
+ADDRS_LONG = ['/a', '/abcd']   # addresses used for the longest lists
+
+# One value of each class, for 4-argument lists (what the fourth argument
+# adds is type-tag padding and bracket nesting, not new value behaviour).
+VALUES_4 = [
+    0, 2 ** 31, 0.5, 1e-3, 1e39, 'a', 'abc', 'ññññ', 'a\x00b', '[', ']',
+    {'b': ''}, {'b': '31'}, {'b': '31323334'}, {'mv': '313233343536'},
+    True, None, [], {'m': [0, 144, 60, 64]},
+    ['/m'], ['/m', {'b': '313233'}], ['/m', ['/n', ['/o', 'ñ']]],
+    [0.0, ['/x']], [0.5, ['/x'], [1.0, ['/y']]],
+]
+
+
+def msg_alphabet(n):
+    return VALUES_4 if n >= 4 else VALUES
+
+
 def msg_jobs(maxlen, addrs):
+    """Lists of <= min(maxlen, 3) arguments over VALUES: all addresses for
+    fewer than 3 arguments, ADDRS_LONG for exactly 3 in the quick tier
+    (maxlen 3), all addresses in the thorough tier; lists of 4 arguments over
+    VALUES_4 for ADDRS_LONG (the argument encoding does not depend on the
+    address; '/a' leaves 2, '/abcd' 3 padding bytes)."""
     jobs = []
     for a in addrs:
         jobs.append({'part': 'msg', 'addr': a, 'n': 0, 'first': None})
         for n in range(1, maxlen + 1):
-            for i in range(len(VALUES)):
+            if a not in ADDRS_LONG and (n >= 4 or n == maxlen):
+                continue
+            for i in range(len(msg_alphabet(n))):
                 jobs.append({'part': 'msg', 'addr': a, 'n': n, 'first': i})
     return jobs
 
@@ -450,8 +505,9 @@ def msg_cases(job):
     if job['n'] == 0:
         yield {'msg': [job['addr']]}
         return
-    first = VALUES[job['first']]
-    for rest in itertools.product(VALUES, repeat=job['n'] - 1):
+    vals = msg_alphabet(job['n'])
+    first = vals[job['first']]
+    for rest in itertools.product(vals, repeat=job['n'] - 1):
         yield {'msg': [job['addr'], first, *rest]}
 
 
@@ -460,19 +516,34 @@ def msg_standalone(py):
             "from sc3.base.main import main\n"
             "from sc3.base.netaddr import NetAddr\n"
             f"msg = {pyrepr(py)}\n"
+            "main._osc_interface._build_msg(0.0, ['/w', 7, 'w'])\n"
             "dgram = main._osc_interface._build_msg(0.0, msg).dgram\n"
             "print(dgram, len(dgram), "
             "NetAddr('127.0.0.1', 57110)._calc_msg_dgram_size(msg))\n")
 
 
-def check_msg(case):
+WARMUP = ['/w', 7, 'w', [0.0, ['/v', b'v']]]
+
+
+def warmup():
+    """Fixed predecessor message: state leaking from one message into the
+    next must show within a single (replayable) case."""
+    try:
+        lib()['main']._osc_interface._build_msg(0.0, jv(WARMUP))
+    except Exception:
+        pass
+
+
+def check_msg_once(case):
     """-> (disagreements, outcome, nontrivial)"""
     L = lib()
     py = jv(case['msg'])
     vd = Verdict()
     expected = exp_message(py, vd)
+    warmup()
     try:
         dgram = L['main']._osc_interface._build_msg(0.0, py).dgram
+        _last['dgram'] = dgram
         err = None
     except Exception as e:
         dgram, err = None, e
@@ -508,6 +579,8 @@ def check_msg(case):
 
 def work_msg(job):
     acc = progenum.Acc()
+    if run_canary(acc, 'nrt', job['n'] == 0 and job['addr'] == ADDRS_Q[0]):
+        return acc.result()
     for case in msg_cases(job):
         dis, outcome, nontriv = check_msg(case)
         for kind, exp, obs, detail in dis:
@@ -518,6 +591,9 @@ def work_msg(job):
             acc.count('msg_refused')
         if outcome[0] == 'accepted' and isinstance(outcome[2], str):
             acc.count('size_prediction_raised_dontcare')
+        if outcome[0].startswith('accepted') and outcome[1] > RUNAWAY:
+            acc.count('shards_cut_runaway_encoding')
+            break
     return acc.result()
 
 
@@ -553,11 +629,11 @@ def bundle_levels(wide):
 def bndl_cases(wide):
     """All bundles of depth 1 and 2, then depth 3 where the outer bundle has
     one depth-2 element alone or paired (either order) with a message
-    (wide: with any message or depth-1 bundle)."""
+    (wide: with any message or depth-1 bundle of <= 1 element)."""
     BM, d1, d2 = bundle_levels(wide)
     yield from d1
     yield from d2
-    side = BM + d1 if wide else BM
+    side = BM + [b for b in d1 if len(b) <= 2] if wide else BM
     for t in BT:
         for b in d2:
             yield [t, b]
@@ -569,7 +645,7 @@ def bndl_cases(wide):
 
 def bndl_count(wide):
     BM, d1, d2 = bundle_levels(wide)
-    side = len(BM) + (len(d1) if wide else 0)
+    side = len(BM) + (len([b for b in d1 if len(b) <= 2]) if wide else 0)
     return len(d1) + len(d2) + len(BT) * len(d2) * (1 + 2 * side)
 
 
@@ -588,14 +664,16 @@ def bundle_depth(b):
                     if not isinstance(e[0], str)] or [0])
 
 
-def check_bndl(case):
+def check_bndl_once(case):
     L = lib()
     py = jv(case['bndl'])
     vd = Verdict()
     expected = exp_bundle(py, vd)
+    warmup()
     try:
         dgram = L['main']._osc_interface._build_bundle(
             0.0, jv(case['bndl'])).dgram
+        _last['dgram'] = dgram
         err = None
     except Exception as e:
         dgram, err = None, e
@@ -619,6 +697,8 @@ def check_bndl(case):
 
 def work_bndl(job):
     acc = progenum.Acc()
+    if run_canary(acc, 'nrt', job['shard'] == 0):
+        return acc.result()
     for idx, b in enumerate(bndl_cases(job['wide'])):
         if idx % job['of'] != job['shard']:
             continue
@@ -633,6 +713,9 @@ def work_bndl(job):
             acc.count('bndl_refused')
         elif isinstance(outcome[2], str):
             acc.count('size_prediction_raised_dontcare')
+        if outcome[0] == 'accepted' and outcome[1] > RUNAWAY:
+            acc.count('shards_cut_runaway_encoding')
+            break
     return acc.result()
 
 
@@ -668,13 +751,20 @@ def exp_element(e, vd):
     return st
 
 
-CLASSES = [12, 16, 20, 8192, 30000, 65000]
+CLASSES_T = [12, 16, 20, 8192, 30000, 65000]
+CLASSES_Q = [12, 20, 8192, 30000, 65000]
 DELTAS = [-8, -4, 0, 4, 8]
+MANY_T = [1000, 5000, 5453, 5454, 5455, 5456, 5457, 5458,
+          8180, 8181, 8182, 8183, 8200]
+MANY_Q = [5000, 5454, 5456, 5458, 8181, 8183]
 
 
 def split_cases(maxlen):
-    """Canonical list of split cases (plain JSON)."""
+    """Canonical list of split cases (plain JSON).  maxlen 2 = quick tier
+    (5 size classes, 6 many-small counts with latency None), 3 = thorough."""
     cases = []
+    quick = maxlen < 3
+    CLASSES = CLASSES_Q if quick else CLASSES_T
     targets = {'clumped': [LIB_LIMIT],
                'sync': [LIB_LIMIT - SYNC_RESERVE, LIB_LIMIT - 20]}
     for api in ('clumped', 'sync'):
@@ -701,9 +791,10 @@ def split_cases(maxlen):
                                 'els': [[kind if s >= 40 else 's', s]
                                         for s in sizes]})
             # many small elements
+            if quick and lat is not None:
+                continue
             for size in (8, 12):
-                for n in (1000, 5000, 5453, 5454, 5455, 5456, 5457, 5458,
-                          8180, 8181, 8182, 8183, 8200):
+                for n in (MANY_Q if quick else MANY_T):
                     cases.append({'api': api, 'lat': lat,
                                   'many': [n, size]})
     return cases
@@ -884,22 +975,6 @@ def check_split(case):
     return dis, outcome, nontriv
 
 
-def _concrete(x):
-    """Expected structure -> encodable structure (first alternative of each
-    don't-care; used only to measure sizes, which do not depend on it)."""
-    if x is ANY:
-        return 0
-    if isinstance(x, Alt):
-        return _concrete(x.vals[0])
-    if isinstance(x, Pkt):
-        return osc10.encode(_concrete(x.struct))
-    if isinstance(x, dict):
-        return {k: _concrete(v) for k, v in x.items()}
-    if isinstance(x, list):
-        return [_concrete(v) for v in x]
-    return x
-
-
 def work_split(job):
     acc = progenum.Acc(max_samples=2)
     cases = split_cases(job['maxlen'])
@@ -1073,7 +1148,16 @@ def work_drecv(job):
 # ---------------------------------------------------------------------------
 # replay / main
 
+def REPLAY_MODE(v):
+    c = v['case']
+    return 'import' if 'lib' in c or c.get('canary') == 'lib' else 'nrt'
+
+
 def _which(case):
+    if 'canary' in case:
+        return check_canary
+    if 'lib' in case:
+        return check_lib
     if 'msg' in case:
         return check_msg
     if 'bndl' in case:
@@ -1118,6 +1202,36 @@ def _pred_case_has(v, what):
 PREDICATES = {'case_has': _pred_case_has}
 
 
+def only_leak(ctx):
+    """An encoder that keeps state between messages makes every other
+    disagreement depend on the whole history of its worker (not replayable
+    from the case): report the leak alone."""
+    ctx.violations = {k: v for k, v in ctx.violations.items()
+                      if k.endswith('-encoder-state-leak')}
+
+
+def nrt_preflight():
+    """Can the library be initialised at all?  (A worker pool whose
+    initialiser raises would respawn workers for ever.)  Returns None or a
+    one-line description."""
+    import subprocess
+    import sys
+    code = ("import sys; sys.path.insert(0, sys.argv[1]); import sc3; "
+            "sc3.init('nrt', verbosity='CRITICAL'); "
+            "from sc3.base.main import main; "
+            "main._osc_interface._build_bundle(0.0, [0.0, ['/a', 1]])")
+    try:
+        r = subprocess.run([sys.executable, '-B', '-W', 'ignore', '-c', code,
+                            core.REPO], capture_output=True, text=True,
+                           timeout=300)
+    except subprocess.TimeoutExpired:
+        return 'no result after 300 s'
+    if r.returncode == 0:
+        return None
+    lines = [l for l in r.stderr.strip().splitlines() if l.strip()]
+    return (lines[-1] if lines else f'exit status {r.returncode}')[:300]
+
+
 def main(ctx):
     thorough = ctx.tier != 'quick'
     maxlen = 4 if thorough else 3
@@ -1152,12 +1266,53 @@ def main(ctx):
         nonlocal t0
         ctx.extra['wall_s_' + name] = round(time.time() - t0, 1)
         t0 = time.time()
+    # --- pure builder/reader (no sc3.init) + canary
+    of = 16
+    jobs = [{'part': 'lib', 'shard': i, 'of': of} for i in range(of)]
+    n_before = ctx.evaluations
+    progenum.run(ctx, MODNAME, 'work_lib', jobs, mode='import',
+                 bound=f'osclib builder: {len(ADDRS_Q)} addresses x <= 2 '
+                       f'args over {len(PURE)} plain OSC values')
+    n_lib = ctx.evaluations - n_before
+    lap('lib')
+    broken = ctx.extra.get('lib_cases_with_disagreement', 0)
+    if ctx.extra.get('shards_cut_state_leak'):
+        only_leak(ctx)
+        ctx.caps.append('the OSC builder keeps state between messages: '
+                        'cases are not independent, nothing else was run')
+        return
+    if broken * 4 >= n_lib or ctx.extra.get('shards_cut_runaway_encoding'):
+        ctx.caps.append(
+            f'systematic breakage of the OSC builder ({broken} of {n_lib} '
+            'plain cases disagree): the NRT parts were not run')
+        return
+    err = nrt_preflight()
+    if err:
+        if ctx.violations:
+            ctx.caps.append('sc3.init("nrt") fails on this tree (' + err +
+                            '): the NRT parts were not run')
+            return
+        raise core.HarnessError('sc3.init("nrt") fails: ' + err)
     # --- messages
     jobs = msg_jobs(maxlen, addrs)
     progenum.run(ctx, MODNAME, 'work_msg', jobs, mode='nrt',
-                 bound=f'messages: {len(addrs)} addresses x <= {maxlen} args '
-                       f'over {len(VALUES)} values')
+                 bound=(f'messages: {len(addrs)} addresses x <= 3 args over '
+                        f'{len(VALUES)} values; {len(ADDRS_LONG)} addresses '
+                        f'x 4 args over {len(VALUES_4)} values')
+                 if thorough else
+                 (f'messages: {len(addrs)} addresses x <= 2 args, '
+                  f'{len(ADDRS_LONG)} addresses x 3 args, over '
+                  f'{len(VALUES)} values'))
     lap('msg')
+    if ctx.extra.get('shards_cut_state_leak'):
+        only_leak(ctx)
+        ctx.caps.append('the message encoder keeps state between messages: '
+                        'cases are not independent, remaining parts not run')
+        return
+    if ctx.extra.get('shards_cut_runaway_encoding'):
+        ctx.caps.append('runaway encodings in the message part: remaining '
+                        'parts were not run')
+        return
     # --- bundles
     of = 64
     jobs = [{'part': 'bndl', 'shard': i, 'of': of, 'wide': thorough}
@@ -1167,7 +1322,7 @@ def main(ctx):
                        f'{len(BM_T if thorough else BM_Q)} '
                        'messages x 4 latencies' +
                        (' (depth 3: depth-2 element + message or depth-1 '
-                        'bundle)' if thorough else
+                        'bundle of <= 1 element)' if thorough else
                         ' (depth 3: depth-2 element + optional message)'))
     lap('bndl')
     # --- splitting
@@ -1176,9 +1331,12 @@ def main(ctx):
     jobs = [{'part': 'split', 'shard': i, 'of': of, 'maxlen': sl}
             for i in range(of)]
     progenum.run(ctx, MODNAME, 'work_split', jobs, mode='nrt',
-                 bound=f'split: <= {sl} class elements + filler, totals on '
-                       'limit + {-8..8}, kinds string/blob/nested bundle, '
-                       'many-small families, send_clumped_bundles and sync, '
+                 bound=f'split: <= {sl} elements from '
+                       f'{len(CLASSES_T if thorough else CLASSES_Q)} size '
+                       'classes + filler, totals on limit + {-8..8}, kinds '
+                       'string/blob/nested bundle, '
+                       f'{len(MANY_T if thorough else MANY_Q)} many-small '
+                       'counts x 2 sizes, send_clumped_bundles and sync, '
                        'latency None / 0.5')
     lap('split')
     # --- /d_recv
